@@ -251,6 +251,7 @@ def run(ctx):
     r5_with_mods(ctx, F)
     from props import C04 as _c04
     _c04.r5_no_default_attributes(ctx, F, rule='C17-R6')
+    r7_od_accessor(ctx, F)
     ctx.not_decided('with_mods=true round trip, monotonicity of hit windows in OD/AR, inverse scaling with clock rate, HR/EZ ordering, '
                     'numeric equality of stored AR/OD with the builder output')
 
@@ -368,3 +369,29 @@ def r5_with_mods(ctx, F):
                             bad='%s applies a %s to the value of slot `%s` without `!%s.with_mods()` being established on that path: a value supplied '
                                 'with with_mods=true is scaled by HR/EZ again and is not reported back unchanged' % (short, what, x, x))
     ctx.floor('C17-R5', n5, 4, 'HR/EZ-dependent scalings of attribute slots (today: hp, cs x2 in build; ar, od x2, mania od x2 in hit_windows)')
+
+
+# ---- R7: the OD an attributes accessor derives from the stored hit window is the builder's OD (seed C17-8: `od()` clamped at 0, the builder's not)
+def r7_od_accessor(ctx, F):
+    """`OsuDifficultyAttributes::od()` turns the stored great hit window back into an OD; `BeatmapAttributesBuilder::build()` does the same for its `od` output.  "OD stored in
+    difficulty attributes equals the builder's output" needs the two conversions to be the same expression of the hit window (helpers inlined): the accessor's result,
+    with `self.great_hit_window` read as W, must be one of the alternatives of the builder's `od`, with `hit_windows().od_great` read as W."""
+    import combin
+    od = F.method('osu::attributes::OsuDifficultyAttributes', 'od', inherent_only=True)
+    build = F.method(B, 'build', inherent_only=True)
+    if od is None or build is None:
+        ctx.violation('C17-R7', 'anchor-missing:od-accessor', 'OsuDifficultyAttributes::od / BeatmapAttributesBuilder::build not found')
+        return
+    ctx.saw(od)
+
+    def inl(fn, v):
+        v = prov.inline_all(F, v, depth=3, _seen=(fn.path,), only=lambda f_: f_.get('local') and not f_.get('trait') and f_.get('name') not in ('hit_windows',))
+        return combin.expand(F, v)
+    a = prov.show(inl(od, prov.prov_of(od).return_value()), maxdepth=14).replace('param#1.great_hit_window', 'W')
+    bv = prov.strip(prov.project_field(inl(build, prov.prov_of(build).return_value()), 'od'), names=set())
+    alts = bv[1] if bv[0] == 'phi' else [bv]
+    import re as _re
+    btxt = [_re.sub(r'[A-Za-z_:<>]*BeatmapAttributesBuilder::hit_windows\(param#1\)\.od_great', 'W', prov.show(x, maxdepth=14)) for x in alts]
+    ctx.require('W' in a and a in btxt, 'C17-R7', 'osu:od-accessor', 'OsuDifficultyAttributes::od() = %s is the builder\'s conversion of the great hit window' % a[:80], od.where(),
+                bad='OsuDifficultyAttributes::od() computes `%s` from the stored great hit window, the attribute builder\'s `od` is one of %s: the OD the attributes report and the '
+                    'builder\'s OD part where the two expressions differ (a clamp, a different constant)' % (a[:120], [t[:90] for t in btxt if 'W' in t]))
